@@ -388,4 +388,200 @@ theorem encodeNumber_nonneg (s : Bytes) :
       | nil => simpa [Minimal] using hx
       | cons y t' => simp only [Minimal]; omega
 
+/-- signed value of `0xff :: b` -/
+theorem intOfBytes_ff_cons (b : Bytes) : intOfBytes (255 :: b) = (beVal b : Int) - (256 ^ b.length : Nat) := by
+  simp only [intOfBytes, ge_iff_le, show (128:Nat) ≤ 255 by decide, if_true, beVal_cons, List.length_cons]
+  have : (256:Nat) ^ (b.length + 1) = 256 * 256 ^ b.length := by rw [Nat.pow_succ, Nat.mul_comm]
+  rw [this]
+  generalize 256 ^ b.length = p
+  generalize beVal b = v
+  omega
+
+theorem intOfBytes_neg_head (b : Bytes) (h : headGe128 b = true) : intOfBytes b = (beVal b : Int) - (256 ^ b.length : Nat) := by
+  cases b with
+  | nil => simp [headGe128] at h
+  | cons x t => simp only [headGe128, decide_eq_true_eq] at h; simp [intOfBytes, h]
+
+theorem intOfBytes_ff_cons_neg (b : Bytes) (h : headGe128 b = true) : intOfBytes (255 :: b) = intOfBytes b := by
+  rw [intOfBytes_ff_cons, intOfBytes_neg_head b h]
+
+/-- value of a run of 0xff bytes followed by `r` -/
+theorem intOfBytes_ffs (k : Nat) (r : Bytes) (hk : 0 < k) :
+    intOfBytes (List.replicate k 255 ++ r) = (beVal r : Int) - (256 ^ r.length : Nat) := by
+  induction k with
+  | zero => omega
+  | succ k ih =>
+    rw [List.replicate_succ, List.cons_append]
+    by_cases hk0 : k = 0
+    · subst hk0; simpa using intOfBytes_ff_cons r
+    · have hk' : 0 < k := by omega
+      have hhead : headGe128 (List.replicate k 255 ++ r) = true := by
+        obtain ⟨j, rfl⟩ : ∃ j, k = j + 1 := ⟨k - 1, by omega⟩
+        simp [List.replicate_succ, headGe128]
+      rw [intOfBytes_ff_cons_neg _ hhead, ih hk']
+
+/-- `encode_number` of a negative big-endian two's-complement slice: same signed value, negative,
+and no redundant leading 0xff byte. -/
+theorem encodeNumber_neg (s : Bytes) (hb : isBytes s) (hneg : headGe128 s = true) :
+    intOfBytes (encodeNumber s true) = intOfBytes s ∧ headGe128 (encodeNumber s true) = true
+      ∧ Minimal (encodeNumber s true) := by
+  obtain ⟨k, hk, hh⟩ := skipPad_suffix 255 s
+  simp only [encodeNumber, if_true]
+  cases hr : skipPad 255 s with
+  | nil =>
+    -- all bytes are 0xff: the value is -1, encoded as [0xff]
+    rw [hr] at hk
+    simp only [List.append_nil] at hk
+    have hk0 : 0 < k := by
+      rcases Nat.eq_zero_or_pos k with h0 | h0
+      · subst h0; rw [hk] at hneg; simp [headGe128] at hneg
+      · exact h0
+    refine ⟨?_, by simp [headGe128], by simp [Minimal]⟩
+    have := intOfBytes_ffs k [] hk0
+    simp only [List.append_nil] at this
+    rw [hk, this]
+    simp [intOfBytes, beVal]
+  | cons x t =>
+    rw [hr] at hk hh
+    have hx : x ≠ 255 := by simpa using hh
+    have hx256 : x < 256 := hb x (by rw [hk]; simp)
+    by_cases h128 : x < 128
+    · -- needs a 0xff pad byte
+      simp only [h128, decide_true, if_true]
+      have hk0 : 0 < k := by
+        rcases Nat.eq_zero_or_pos k with h0 | h0
+        · subst h0; simp at hk; rw [hk] at hneg; simp [headGe128] at hneg; omega
+        · exact h0
+      refine ⟨?_, by simp [headGe128], ?_⟩
+      · rw [intOfBytes_ff_cons]
+        conv => rhs; rw [hk]
+        rw [intOfBytes_ffs k _ hk0]
+      · simp only [Minimal]; omega
+    · simp only [h128, decide_false, Bool.false_eq_true, if_false]
+      have hge : headGe128 (x :: t) = true := by simp [headGe128]; omega
+      refine ⟨?_, hge, ?_⟩
+      · conv => rhs; rw [hk]
+        rcases Nat.eq_zero_or_pos k with h0 | h0
+        · subst h0; simp
+        · rw [intOfBytes_ffs k _ h0, intOfBytes_neg_head _ hge]
+      · cases t with
+        | nil => simp [Minimal]; omega
+        | cons y t' => simp only [Minimal]; omega
+
+
+theorem stripPadding_spec (len pad : Nat) : ∀ (budget : Nat) (slice s : Bytes), stripPadding len pad budget slice = some s →
+    ∃ k, k ≤ budget ∧ slice = List.replicate k pad ++ s ∧ (s.length ≤ len ∨ s.head? ≠ some pad) := by
+  intro budget
+  induction budget with
+  | zero =>
+    intro slice s h
+    cases slice with
+    | nil => simp [stripPadding] at h; subst h; exact ⟨0, by omega, by simp, Or.inl (by simp)⟩
+    | cons x t =>
+      simp only [stripPadding] at h
+      by_cases hc : (x :: t).length > len ∧ x = pad
+      · rw [if_pos hc] at h; cases h
+      · rw [if_neg hc] at h; injection h with h; subst h
+        refine ⟨0, by omega, by simp, ?_⟩
+        by_cases hl : (x :: t).length ≤ len
+        · exact Or.inl hl
+        · right; simp; intro hx; exact hc ⟨by omega, hx⟩
+  | succ b ih =>
+    intro slice s h
+    cases slice with
+    | nil => simp [stripPadding] at h; subst h; exact ⟨0, by omega, by simp, Or.inl (by simp)⟩
+    | cons x t =>
+      simp only [stripPadding] at h
+      by_cases hc : (x :: t).length > len ∧ x = pad
+      · rw [if_pos hc] at h
+        obtain ⟨k, hk, hs, hend⟩ := ih t s h
+        exact ⟨k + 1, by omega, by rw [hs, hc.2, List.replicate_succ]; simp, hend⟩
+      · rw [if_neg hc] at h; injection h with h; subst h
+        refine ⟨0, by omega, by simp, ?_⟩
+        by_cases hl : (x :: t).length ≤ len
+        · exact Or.inl hl
+        · right; simp; intro hx; exact hc ⟨by omega, hx⟩
+
+/-- value of a fixed-width big-endian field under the typed interpretation -/
+def typedVal (signed : Bool) (r : Bytes) : Int := if signed then intOfBytes r else (beVal r : Int)
+
+theorem intOfBytes_ffs' (k : Nat) (r : Bytes) (h : headGe128 r = true) : intOfBytes (List.replicate k 255 ++ r) = intOfBytes r := by
+  rcases Nat.eq_zero_or_pos k with h0 | h0
+  · subst h0; simp
+  · rw [intOfBytes_ffs k r h0, intOfBytes_neg_head r h]
+
+theorem headGe128_replicate_zero (k : Nat) (s : Bytes) (h : headGe128 s = false) : headGe128 (List.replicate k 0 ++ s) = false := by
+  cases k with
+  | zero => simpa using h
+  | succ k => simp [List.replicate_succ, headGe128]
+
+/-- **`decode_number` never truncates.**  Whatever it returns has exactly the requested width and the
+same value as the atom (signed for signed types; for unsigned types the atom is non-negative); the
+empty atom decodes to zero. -/
+theorem decodeNumber_value (len : Nat) (signed : Bool) (slice r : Bytes) (hlen : 0 < len)
+    (h : decodeNumber len signed slice = some r) :
+    r.length = len ∧ typedVal signed r = intOfBytes slice ∧ (signed = false → headGe128 slice = false) := by
+  cases slice with
+  | nil =>
+    simp only [decodeNumber] at h; injection h with h; subst h
+    refine ⟨by simp [zeros], ?_, fun _ => rfl⟩
+    unfold typedVal
+    have hz : beVal (zeros len) = 0 := by
+      have := beVal_replicate_zero len []
+      simpa [zeros, beVal] using this
+    cases signed with
+    | false => simp [intOfBytes, hz]
+    | true =>
+      have : headGe128 (zeros len) = false := by
+        cases len with
+        | zero => rfl
+        | succ n => simp [zeros, List.replicate_succ, headGe128]
+      rw [if_pos rfl, intOfBytes_of_head _ this, hz]; simp [intOfBytes]
+  | cons x0 t =>
+    simp only [decodeNumber] at h
+    by_cases hu : (!signed ∧ x0 ≥ 128)
+    · rw [if_pos (by simpa using hu)] at h; cases h
+    rw [if_neg (by simpa using hu)] at h
+    cases hsp : stripPadding len (if (signed && decide (x0 ≥ 128)) = true then 255 else 0) 64 (x0 :: t) with
+    | none => rw [hsp] at h; cases h
+    | some s =>
+      rw [hsp] at h; simp only at h
+      by_cases hbad : s.length > len ∨ ((signed && headGe128 s) ≠ (signed && decide (x0 ≥ 128)))
+      · rw [if_pos hbad] at h; cases h
+      rw [if_neg hbad] at h
+      injection h with h; subst h
+      have hsl : s.length ≤ len := by omega
+      have hsame : (signed && headGe128 s) = (signed && decide (x0 ≥ 128)) := by
+        by_cases e : (signed && headGe128 s) = (signed && decide (x0 ≥ 128))
+        · exact e
+        · exact absurd (Or.inr e) hbad
+      obtain ⟨k, _, hk, _⟩ := stripPadding_spec _ _ _ _ _ hsp
+      refine ⟨by simp; omega, ?_, ?_⟩
+      · unfold typedVal
+        by_cases hwn : (signed && decide (x0 ≥ 128)) = true
+        · -- negative number, pad byte 0xff
+          simp only [hwn, if_true] at hk ⊢
+          have hs : signed = true := by simp at hwn; exact hwn.1
+          have hneg : headGe128 s = true := by rw [hwn, hs] at hsame; simpa using hsame
+          simp only [hs, if_true]
+          rw [intOfBytes_ffs' _ _ hneg, hk, intOfBytes_ffs' _ _ hneg]
+        · simp only [hwn, Bool.false_eq_true, if_false] at hk ⊢
+          have hwn' : (signed && decide (x0 ≥ 128)) = false := by simpa using hwn
+          have hx0 : headGe128 (x0 :: t) = false := by
+            cases signed with
+            | false => simp at hu; simp [headGe128]; omega
+            | true => simp at hwn'; simp [headGe128]; omega
+          have hv : beVal (x0 :: t) = beVal s := by rw [hk]; exact beVal_replicate_zero k s
+          rw [intOfBytes_of_head _ hx0, hv]
+          cases signed with
+          | false => simp [beVal_replicate_zero]
+          | true =>
+            have hsn : headGe128 s = false := by rw [hwn'] at hsame; simpa using hsame
+            simp only [if_true]
+            rw [intOfBytes_of_head _ (headGe128_replicate_zero _ _ hsn), beVal_replicate_zero]
+      · intro hs
+        subst hs
+        simp at hu
+        simp [headGe128]; omega
+
 end ChiaModel.C11
